@@ -88,6 +88,10 @@ var chanSeq atomic.Uint32
 
 // withProcs runs f under the given GOMAXPROCS.
 func withProcs(n int, f func()) {
+	if n <= 0 {
+		f() // leave the scheduler setting alone (concurrent callers)
+		return
+	}
 	old := runtime.GOMAXPROCS(n)
 	defer runtime.GOMAXPROCS(old)
 	f()
